@@ -315,6 +315,17 @@ def extra(tier, seed, stats):
                     out.append({"case": case, "detail": {"what": "boundary composition %s:%s reported as %d" % (p, f, b)},
                                 "kind": "mismatch"})
     stats.extra["enumerated_boundary_pairs"] = n
+    # names are not residues: short records whose names are long and rich in the letters of the other kind, every reader
+    for want, seqs, nm in (("dna", ["ACGTTGCA", "ACGATGCA", "ACTTGCA", "ACGTTGA"], "DEFHIKLMPQRSVWY_PROTEIN_KINASE_LIKE_%d"),
+                           ("protein", ["MKVLHHW", "MKILHW", "MKVHHW", "MKVLHW"], "ACGTACGTACGTTTGGCCAANNNNACGT_%d")):
+        for via, gf in (("fasta", 0.0), ("fasta_gapped", 0.5), ("msf", 0.5), ("clu", 0.5), ("msf", 0.1), ("clu", 0.9)):
+            case = {"seqs": seqs, "via": via, "gapfrac": gf, "perm_seed": 3, "names": [nm % i for i in range(4)], "names2": [(nm % i)[::-1] for i in range(4)],
+                    "gap_seed": 1, "history": [], "nfiles": 1, "split_seed": 0}
+            r = check(case)
+            stats.record(case, r)
+            stats.classes["names_of_the_other_kind"] += 1
+            if r["status"] == "violation":
+                out.append({"case": case, "detail": r["detail"], "kind": r.get("kind")})
     # call history, enumerated: a small input of one kind observed after one or three large inputs of the other kind (array
     # and file calls in every combination): the decision is about the input at hand
     rnd_h = random.Random(seed + 5)
